@@ -237,3 +237,28 @@ prop("C15",
                 "and fresh: the property allows the move, so does the oracle.",
      technique="runtime monitoring under address-rewriting fault injection (simulated network, virtual time), wire-log oracle",
      assumptions=["go1.26 testing/synctest virtual time"])
+
+prop("C10",
+     level="fault_enumeration",
+     parts=[{"engine": "junk", "checkptr": True}],
+     floor={"quick": 5000, "thorough": 100000},
+     child_timeout={"quick": 900, "thorough": 3000},
+     rule="Hostile datagrams delivered to the real transport.Server and Client in four server configurations (single certificate; "
+          "hidden-only; several virtual hosts behind the real hopserver.VirtualHosts matcher; the same with three hidden-mode "
+          "names) and in every endpoint state (established/idle, interleaved with a running honest handshake from its own and "
+          "other addresses, at the client from the server's and other addresses, after Close). Datagrams: every truncation length "
+          "of every valid message of all types (enumerated; quick covers a seed-chosen window of each chunk), the 256 type bytes x "
+          "a 28-length grid with a live session id, single-byte and header-byte mutations, length fields set to 0/1/actual+-1/"
+          "0x7fff/0x8000/0xffff, live session ids on short and long bodies with counter extremes, extensions, glued and replayed "
+          "valid messages, hidden-request shapes, random strings; plus real handshakes naming hostile server names (empty, '*', "
+          "252 bytes, every id type). Oracle: no goroutine panics (process death is attributed to the batch), and after every "
+          "batch of <=64 datagrams the established session still carries a message each way and an honest handshake from a fresh "
+          "address completes and carries a message each way. Non-trivial = a datagram consumed by a live endpoint before a probe "
+          "that was judged.",
+     level_text="Fault enumeration (truncations and type x length grid of every message type) plus seeded mutation/random "
+                "exploration against the real endpoints in virtual time, with liveness probes after every short batch; checkptr build.",
+     level_note="The real hopserver.NewHopServer closures are mirrored around the real VirtualHosts matcher (NewHopServer itself "
+                "binds a UDP socket). A handshake that is running while junk arrives from its own address may fail; only "
+                "subsequent handshakes are judged, as the property states.",
+     technique="hostile-input fault injection on a simulated network with crash attribution (child processes) and liveness probes; checkptr instrumentation",
+     assumptions=["go1.26 testing/synctest virtual time"])
